@@ -5,6 +5,9 @@ Inductive c19case :=
 | C19 (w : world) (ref : bytes) (mtree : N) (obs : mres) (recorders : list (key * N * vout))
   (* policies with file rules: [feature] is the tip being merged *)
 | C19F (fw : fworld) (ref : bytes) (mtree : N) (feature : N) (obs : mres) (recorders : list (key * N * vout))
+  (* the public API (experimental/gittuf Repository.VerifyMergeable) on the same history: through the
+     log and with the feature reference read directly *)
+| C19W (w : world) (ref : bytes) (mtree : N) (internal via_log direct : mres)
 | C19Panic.
 
 Definition mres_eqb (a b : mres) : bool :=
@@ -121,6 +124,9 @@ Definition c19_check (c : c19case) : verdict :=
       let agree_m := mres_eqb (verify_mergeable w ref mtree) obs in
       let agree_v := forallb (fun r => vout_eqb (verify_full (with_merge w ref (snd (fst r)) (fst (fst r))) ref) (snd r)) recs in
       c19_decide w ref mtree obs recs agree_m agree_v
+  | C19W w ref mtree internal via_log direct =>
+      if negb (mres_eqb via_log internal && mres_eqb direct internal) then VSpec 7
+      else if mres_eqb (verify_mergeable w ref mtree) internal then VOk else VMismatch 1
   | C19F fw ref mtree feature obs recs =>
       if negb (c10_shape (fw_world fw) ref) then VMismatch 9
       else
